@@ -166,6 +166,27 @@ def seg_unknown(job):
         return ('exc ' + vlib.exc_name(e), False)
 
 
+def cardgrid(job):
+    """(version, segment, field, min, max, k): a segment holding k occurrences of one field, validated against a reference that gives that field
+    the cardinality [min..max] (the standard reference of the segment with that one row edited; validate(element, reference=...) is the
+    documented way to hand the validator a reference).  Independent expectation: missing iff k < min, exceeded iff max >= 0 and k > max —
+    whatever min is (no shipped table has a minimum above 1: seed C04-i)"""
+    import hl7apy, profiles
+    from hl7apy.core import Segment
+    from hl7apy.validation import Validator
+    v, S, F, mn, mx, k = job
+    try:
+        lib = hl7apy.load_library(v)
+        ref = profiles.Synth(lib, [('C', 's', S, F, mn, mx)]).segment(S, lib.SEGMENTS[S])
+        seg = Segment(S, version=v, validation_level=vlib.level(False))
+        for _ in range(k):
+            seg.add_field(F)
+        r = Validator.validate(seg, reference=ref, return_errors=True)
+        return sorted(set(impl.canon_err(e) for e in r.errors))
+    except Exception as e:  # noqa
+        return ['exc ' + vlib.exc_name(e)]
+
+
 def interleaved(job):
     """(version, structure, text, S, order): the same text validated against the standard structure and against a reference of the
     SAME name that forbids the top-level segment S, one after the other in one process — validate() is an observation of (message,
@@ -365,6 +386,33 @@ def run(tier, seed):
         else:
             chk.nontrivial.add((v, S, 'unknown-field'))
     chk.dist['fresh_segment_unknown_field'] = {'cases': len(sjobs), 'open_ended': nopen}
+    # cardinalities, all of them: k occurrences against [min..max]
+    gjobs = []
+    for v in vs:
+        lib = hl7apy.load_library(v)
+        names_ = sorted(n for n in lib.SEGMENTS if n not in ex.get(v, []) and n not in ('MSH', 'ANYHL7SEGMENT'))
+        for S in rng.sample(names_, min(len(names_), 6 if tier == 'quick' else 60)):
+            rows_ = [r for r in lib.SEGMENTS[S][1] if gen.is_seq(r) and len(r) == 4 and gen.well_formed_ref(r[1]) and len(r[1]) == 6 and r[1][2] != 'varies']
+            if not rows_:
+                continue
+            F = rng.choice(rows_)[0]
+            for mn, mx in ((0, 1), (1, 1), (2, -1), (2, 4), (3, 3), (0, 0)):
+                for k in range(0, 6):
+                    gjobs.append((v, S, F, mn, mx, k))
+    for j, errs in zip(gjobs, vlib.pmap(cardgrid, gjobs, chunk=64)):
+        chk.evals += 1
+        v, S, F, mn, mx, k = j
+        want = (['missing:%s.%s' % (S, F)] if k < mn else []) + (['exceeded:%s.%s' % (S, F)] if 0 <= mx < k else [])
+        got = [e for e in errs if e in ('missing:%s.%s' % (S, F), 'exceeded:%s.%s' % (S, F))]
+        if any(e.startswith('exc ') for e in errs):
+            chk.notes.append('cardgrid: %s %s' % (j, errs[:2]))
+        elif sorted(got) != sorted(want):
+            rep = {'api': 'Validator.validate(segment holding k x field, reference=<standard reference of the segment with that field at [min..max]>, return_errors=True)',
+                   'version': v, 'segment': S, 'field': F, 'min': mn, 'max': mx, 'occurrences': k}
+            chk.fail(None, {'clause': 'a child below its minimum is reported missing, one above its maximum exceeded — for every cardinality', 'expected': want, 'got': got, 'all_errors': errs[:6], **rep}, rep)
+        else:
+            chk.nontrivial.add((v, S, F, mn, mx, k))
+    chk.dist['cardinality_grid'] = len(gjobs)
     # the same text against two references of one name, interleaved
     ijobs, seen_st = [], set()
     for c in cases:
